@@ -476,6 +476,7 @@ struct Shared {
     outcomes: HashSet<String>,
     samples: Vec<Value>,
     errors: Vec<String>,
+    unreproducible: Vec<String>,
 }
 
 fn enabled_syms(m: &DModel, cfg: &DapCfg) -> Vec<Sym> {
@@ -572,6 +573,15 @@ pub fn explore(cx: &DapCtx, cfg: &DapCfg, part: &mut Part, deadline: Instant, ex
         part.violate(format!("{}:machinery", cfg.prop), e, json!({}));
         part.exhaustive = false;
     }
+    if !g.unreproducible.is_empty() {
+        // not explored further, not a verdict: said in the evidence
+        part.exhaustive = false;
+        part.caps_hit.push(format!("{} state(s) observed once could not be reached again and were not expanded", g.unreproducible.len()));
+        let e = part.extra.entry("unreproducible_observations".to_string()).or_insert(json!([]));
+        if let Some(a) = e.as_array_mut() {
+            a.extend(g.unreproducible.iter().take(5).map(|s| json!(s)));
+        }
+    }
     let e = part.extra.entry("sessions".to_string()).or_insert(json!(0));
     *e = json!(e.as_u64().unwrap_or(0) + g.sessions);
     if capped.load(std::sync::atomic::Ordering::Relaxed) {
@@ -628,42 +638,59 @@ pub fn drive(cx: &DapCtx, cfg: &DapCfg, path: &[Sym], extra_oracle: &(dyn Fn(&Da
 #[allow(clippy::too_many_arguments)]
 fn walk(cx: &DapCtx, cfg: &DapCfg, shared: &Mutex<Shared>, start_key: String, first: Sym, prefix: Vec<Sym>, extra_oracle: &(dyn Fn(&DapCtx, &DModel, &mut DModel, &Sym, &Value, &str, &mut Vec<Finding>) + Sync)) {
     let replay_of = |path: &[Sym]| json!({"engine":"dap","prop":cfg.prop,"exe":cx.p.built.exe,"lines":cx.lines,"fns":cx.fns,"insns":cx.insns,"path":path,"history":path.iter().map(|a| a.label()).collect::<Vec<_>>()});
-    let mut sess = match ISession::start("dap", &json!({"exe": cx.p.built.exe, "main_entry_sp": cx.p.trace.main_entry_sp})) {
-        Ok(s) => s,
-        Err(e) => {
-            shared.lock().unwrap().errors.push(format!("cannot start worker: {e}"));
+    let timeout = Duration::from_secs(90);
+    let mut reached_keys: Vec<String> = vec![];
+    let (mut sess, mut m, mut mon, mut path, mut seq) = loop {
+        let mut sess = match ISession::start("dap", &json!({"exe": cx.p.built.exe, "main_entry_sp": cx.p.trace.main_entry_sp})) {
+            Ok(s) => s,
+            Err(e) => {
+                shared.lock().unwrap().errors.push(format!("cannot start worker: {e}"));
+                return;
+            }
+        };
+        shared.lock().unwrap().sessions += 1;
+        let mut m = DModel::default();
+        let mut mon = Monitor::default();
+        let mut path: Vec<Sym> = vec![];
+        let mut seq = 0i64;
+        let mut sink = vec![];
+        let mut failed: Option<String> = None;
+        for a in &prefix {
+            path.push(a.clone());
+            seq += 1;
+            let req = request(cx, a, seq, m.thread_id);
+            match sess.cmd(&req, timeout) {
+                Ok(o) => {
+                    monitor(&mut mon, a, &req, &o, "", &mut sink, cfg.prop);
+                    let before = m.clone();
+                    update_model(cx, &mut m, a, &o);
+                    extra_oracle(cx, &before, &mut m, a, &o, "", &mut sink);
+                }
+                Err(e) => {
+                    failed = Some(format!("[{}] replaying known prefix {:?} failed: {e:?}", cx.p.name(), path.iter().map(|a| a.label()).collect::<Vec<_>>()));
+                    break;
+                }
+            }
+            shared.lock().unwrap().replayed += 1;
+        }
+        let reached = canon(&m);
+        if failed.is_none() && reached == start_key {
+            break (sess, m, mon, path, seq);
+        }
+        sess.kill();
+        reached_keys.push(failed.clone().unwrap_or(reached.clone()));
+        if reached_keys.len() >= 3 {
+            let mut g = shared.lock().unwrap();
+            if failed.is_none() && reached_keys.iter().all(|k| k == &reached_keys[0]) {
+                // three fresh sessions agree with each other and not with the state recorded once:
+                // that single observation cannot be reproduced, so nothing can be built on it
+                g.unreproducible.push(format!("[{}] {:?}: recorded once {}, replayed three times {}", cx.p.name(), path.iter().map(|a| a.label()).collect::<Vec<_>>(), start_key, reached));
+            } else {
+                g.errors.push(format!("[{}] nondeterminism: replaying {:?} reached {:?} instead of {}", cx.p.name(), path.iter().map(|a| a.label()).collect::<Vec<_>>(), reached_keys, start_key));
+            }
             return;
         }
     };
-    shared.lock().unwrap().sessions += 1;
-    let mut m = DModel::default();
-    let mut mon = Monitor::default();
-    let mut path: Vec<Sym> = vec![];
-    let mut seq = 0i64;
-    let timeout = Duration::from_secs(90);
-    let mut sink = vec![];
-    for a in &prefix {
-        path.push(a.clone());
-        seq += 1;
-        let req = request(cx, a, seq, m.thread_id);
-        match sess.cmd(&req, timeout) {
-            Ok(o) => {
-                monitor(&mut mon, a, &req, &o, "", &mut sink, cfg.prop);
-                let before = m.clone();
-                update_model(cx, &mut m, a, &o);
-                extra_oracle(cx, &before, &mut m, a, &o, "", &mut sink);
-            }
-            Err(e) => {
-                shared.lock().unwrap().errors.push(format!("[{}] replaying known prefix {:?} failed: {e:?}", cx.p.name(), path.iter().map(|a| a.label()).collect::<Vec<_>>()));
-                return;
-            }
-        }
-        shared.lock().unwrap().replayed += 1;
-    }
-    if canon(&m) != start_key {
-        shared.lock().unwrap().errors.push(format!("[{}] nondeterminism: replaying {:?} reached {} instead of {}", cx.p.name(), path.iter().map(|a| a.label()).collect::<Vec<_>>(), canon(&m), start_key));
-        return;
-    }
     let mut next = Some(first);
     // canonical route = state-changing steps only; requests that leave the canonical state
     // unchanged are chained inside the session without counting towards the depth bound
